@@ -28,6 +28,8 @@ pub struct SetInfo {
 const NSS: &[&str] = &["", "n1", "n1.sub", "n2"];
 
 pub struct GenCfg {
+    /// members that are a logical type on a fixed
+    pub logical_members: bool,
     pub allow_nested_sibling_ref: bool,
     pub allow_nested_duplicate: bool,
     pub allow_bad: bool,
@@ -58,10 +60,17 @@ pub fn gen_set(c: &mut Choices, cfg: &GenCfg) -> SetInfo {
             _ if ns.is_empty() => format!("\"name\":\"{name}\""),
             _ => format!("\"name\":\"{name}\",\"namespace\":\"{ns}\""),
         };
-        let kind = c.weighted(&[7, 1, 1]);
+        let kind = c.weighted(&[7, 1, 1, if cfg.logical_members { 2 } else { 0 }]);
         let text = match kind {
             1 => format!("{{\"type\":\"enum\",{header},\"symbols\":[\"A\",\"B\",\"C\"]}}"),
             2 => format!("{{\"type\":\"fixed\",{header},\"size\":{}}}", 1 + c.pick(4)),
+            3 => match c.pick(3) {
+                // a named type that is more than its fixed: the logical type has to survive however
+                // the member is reached (parsed on its own turn or on demand through a reference)
+                0 => format!("{{\"type\":\"fixed\",{header},\"size\":{},\"logicalType\":\"decimal\",\"precision\":4,\"scale\":1}}", 2 + c.pick(4)),
+                1 => format!("{{\"type\":\"fixed\",{header},\"size\":12,\"logicalType\":\"duration\"}}"),
+                _ => format!("{{\"type\":\"fixed\",{header},\"size\":16,\"logicalType\":\"uuid\"}}"),
+            },
             _ => {
                 let nf = 1 + c.pick(3);
                 let mut fields = vec![];
@@ -306,6 +315,21 @@ pub fn check_set(info: &SetInfo, reps: usize, c: &mut Choices, log: &mut CaseLog
     if want_ok && ok_runs == 0 {
         return Err(Fail::new(format!("C20/resolvable-set-rejected/{class}"), format!("every reference resolves within the set and no name is defined twice, but parsing fails: {first_err}")).with(sdetail(info, vec![])));
     }
+    if !want_ok && err_runs == 0 && (info.nested_duplicate || info.top_duplicate) && !info.dangling {
+        // parse_list letting a second definition through is the known finding; the duplicate must
+        // then at least be caught when the schemas are resolved together (which every writer and
+        // reader built with schemata does)
+        for (perm, schemas) in &parsed_sets {
+            log.sub_evals += 1;
+            if ResolvedSchema::new_with_schemata(schemas.iter().collect()).is_ok() {
+                return Err(Fail::new(
+                    format!("C20/duplicate-definition-survives-resolution/{class}"),
+                    format!("a full name is defined twice in the set, parse_list accepted it (order {perm:?}) and ResolvedSchema::new_with_schemata accepts the result as well"),
+                )
+                .with(sdetail(info, vec![])));
+            }
+        }
+    }
     if !want_ok && err_runs == 0 {
         return Err(Fail::new(format!("C20/unresolvable-or-duplicate-set-accepted/{class}"), "the set has a dangling reference or defines a full name twice, but parsing succeeds".to_string()).with(sdetail(info, vec![])));
     }
@@ -377,7 +401,7 @@ fn reps() -> usize {
 }
 
 pub fn case_set(c: &mut Choices, log: &mut CaseLog) -> CaseResult {
-    let info = gen_set(c, &GenCfg { allow_nested_sibling_ref: false, allow_nested_duplicate: false, allow_bad: true });
+    let info = gen_set(c, &GenCfg { logical_members: true, allow_nested_sibling_ref: false, allow_nested_duplicate: false, allow_bad: true });
     log.label("set");
     log.label(&format!("members:{}", info.texts.len()));
     if info.dangling || info.top_duplicate {
@@ -395,7 +419,7 @@ pub fn case_set(c: &mut Choices, log: &mut CaseLog) -> CaseResult {
 /// The two known-finding classes, generated on purpose.
 pub fn case_known_classes(c: &mut Choices, log: &mut CaseLog) -> CaseResult {
     let dup = c.bool();
-    let info = gen_set(c, &GenCfg { allow_nested_sibling_ref: !dup, allow_nested_duplicate: dup, allow_bad: false });
+    let info = gen_set(c, &GenCfg { logical_members: true, allow_nested_sibling_ref: !dup, allow_nested_duplicate: dup, allow_bad: false });
     log.label("set");
     log.nontrivial = info.nested_sibling_ref || info.nested_duplicate;
     log.hash = fnv(info.texts.join("|").as_bytes());
